@@ -6,6 +6,7 @@ require (
 	github.com/acquirecloud/golibs v0.0.0
 	github.com/alicebob/miniredis/v2 v2.30.2
 	github.com/go-redis/redis/v8 v8.11.5
+	github.com/gobwas/glob v0.2.3
 	google.golang.org/genproto v0.0.0-20230306155012-7f2fa6fef1f4
 	google.golang.org/grpc v1.55.0
 	google.golang.org/protobuf v1.30.0
@@ -16,7 +17,6 @@ require (
 	github.com/cespare/xxhash/v2 v2.2.0 // indirect
 	github.com/dgryski/go-rendezvous v0.0.0-20200823014737-9f7001d12a5f // indirect
 	github.com/edsrzf/mmap-go v1.1.0 // indirect
-	github.com/gobwas/glob v0.2.3 // indirect
 	github.com/golang/protobuf v1.5.3 // indirect
 	github.com/google/uuid v1.3.0 // indirect
 	github.com/logrange/linker v0.0.0-20200625191800-a2d82c14f745 // indirect
